@@ -111,6 +111,7 @@ def main():
         if rules is None:
             raise vf.NotAVerdict("Convert emitted no rules")
         cases = convlib.decode(cases)
+        cases.sort(key=vf.canon)  # TLC emits in worker order; every seeded choice must see the same order
     jrules = {k: sorted(v) for k, v in rules.items()}
     # ---- part (a): the TLC-enumerated inventories
     nontriv = set()
